@@ -191,6 +191,7 @@ read_vmcoreinfo_from_lowcore(kdump_ctx_t *ctx)
 	sz = notesz;
 	ret = read_locked(ctx, KDUMP_KPHYSADDR, addr, note, &sz);
 	if (ret == KDUMP_OK &&
+	    hdr.n_namesz <= sizeof("VMCOREINFO") &&
 	    !memcmp(note + sizeof(Elf64_Nhdr), "VMCOREINFO", hdr.n_namesz))
 		ret = process_notes(ctx, note, notesz);
 
